@@ -15,7 +15,7 @@ META = {
     "engine": "E1 runtime scenario engine",
     "rule": (
         "seeded random scenarios: 0-12 payloads and 0-4 services per flavour; argument lists empty / positional "
-        "only / keyword only / mixed, with mutable markers; submission before start, right after `running`, and "
+        "only / keyword only / mixed, with mutable markers; submission before start (in 40 % of the scenarios by 2-4 threads at the same time), right after `running`, and "
         "after 10+ polling cycles; from an outside thread, from thread / asyncio / trio payloads, in bursts without "
         "a checkpoint, through chains three deep and from executed payloads; services created before start, by the "
         "driver, inside payloads, and as replacements for finished, garbage-collected services within one polling "
@@ -52,7 +52,9 @@ def leaf(rnd, pid, flavour=None, gate=False):
         program = [["block"]]
     if gate:
         program = [["gate", "g-" + pid, 3.0]] + program
-    return {"id": pid, "flavour": flavour, "program": program, "args": a, "kwargs": k, "cleanup": {"kind": "none"}}
+    # the payload as a plain function, a lambda, a wrapped function, a partial, a callable object or a bound method
+    how = rnd.choice(["function", "function", "function", "lambda", "wrapped", "partial", "object", "method"])
+    return {"id": pid, "flavour": flavour, "program": program, "args": a, "kwargs": k, "cleanup": {"kind": "none"}, "callable": how}
 
 
 def gen_steady(rnd, spec):
@@ -139,6 +141,14 @@ def gen_steady(rnd, spec):
         gen["services"].append({"id": new, "flavour": flavour, "program": [["sleep", 0.005]]})
         late += [["service", old], ["sleep", delay * 2 + 0.1], ["drop_service", old], ["service", new]]
         expected += ["svc:" + old, "svc:" + new]
+    # several threads registering payloads and creating services at the same time before the runtime starts
+    if rnd.random() < 0.4:
+        gen["prestart_threads"] = rnd.choice([2, 3, 4])
+        for _ in range(rnd.randint(4, 12)):
+            p = leaf(rnd, new_id("early"))
+            p["when"] = "queued"
+            gen["payloads"].append(p)
+            expected.append(p["id"])
     script.append(["sleep", delay * 12])  # 10+ polling cycles
     script += late
     script.append(["sleep", 0.35 + delay * 14])
@@ -284,6 +294,8 @@ def judge(case, run, result):
     specs = {p["id"]: p for p in gen["payloads"]}
     specs.update({"svc:" + s["id"]: s for s in gen["services"]})
     problems = []
+    if gen.get("prestart_threads"):
+        result.count("scenarios_with_concurrent_registration_before_start")
     if common.watchdog_fired(run):
         mech = common.classify_hang(run)
         if mech == "adopt-trio-blocks-on-busy-trio-thread":
@@ -399,7 +411,8 @@ def run_shard(spec):
 def finish(total, tier):
     need = ["adoptions_judged", "starts_exactly_once_asyncio", "starts_exactly_once_trio", "starts_exactly_once_threading", "services_started_exactly_once",
             "gated_adopts_returned_before_payload_released", "scenarios_with_idle_asyncio_loop", "service_storms", "scenarios_with_bursts", "scenarios_with_replaced_services",
-            "window_adopts_judged", "adopts_in_shutdown_window_inside", "adopts_in_shutdown_window_outside"]
+            "window_adopts_judged", "adopts_in_shutdown_window_inside", "adopts_in_shutdown_window_outside",
+            "scenarios_with_concurrent_registration_before_start"]
     for name in need:
         if not total.counters.get(name) and not total.violations:
             total.inconc("monitor never observed: " + name)
